@@ -172,7 +172,7 @@ def run(ctx):
         return i, j
 
     # ---------------- 1. direction increments -------------------------------------------
-    for q in range(ctx.n(30, 300)):
+    for q in range(ctx.n(40, 400)):
         n = rng.choice(NS_ALL + [rng.randint(8, 180)])
         kindg = rng.choice(["linspace", "linspace", "offset", "nonuniform"])
         if kindg == "linspace":
@@ -190,7 +190,7 @@ def run(ctx):
         post.append(("incr", i, j, kindg, n, th))
 
     # ---------------- 2. MEM closed form -------------------------------------------------
-    for q in range(ctx.n(150, 3000)):
+    for q in range(ctx.n(400, 4000)):
         n = rng.choice(NS_ALL + [rng.randint(8, 180)])
         off = rng.choice([0.0, 0.0, C.dyadic(rng, -180, 180, 10)])
         th = to_rad(grid_deg(n, off))
@@ -202,7 +202,7 @@ def run(ctx):
         post.append(("mem", i, j, kind, n, th, m))
 
     # ---------------- 3. MEM2 distribution for arbitrary multipliers ---------------------
-    for q in range(ctx.n(150, 3000)):
+    for q in range(ctx.n(400, 4000)):
         n = rng.choice(NS_ALL + [rng.randint(8, 180)])
         th = to_rad(grid_deg(n, rng.choice([0.0, C.dyadic(rng, -180, 180, 10)])))
         mag = 10 ** rng.uniform(-3, rng.choice([1, 2, 3, 4]))
@@ -220,7 +220,7 @@ def run(ctx):
         post.append(("dist", i, j, dk, n, th, lam, d))
 
     # ---------------- 4. estimate_directional_distribution on batches --------------------
-    nb = ctx.n(14, 220)
+    nb = ctx.n(60, 900)
     for q in range(nb):
         n = rng.choice(NS_ALL + [rng.randint(8, 180)])
         dirs = grid_deg(n)
@@ -255,7 +255,7 @@ def run(ctx):
             post.append(("est", i, j, method, sm, mv, n, dirs, shape, entries))
 
     # ---------------- 5. spectrum objects: 1D -> 2D -> 1D -------------------------------
-    for q in range(ctx.n(8, 80)):
+    for q in range(ctx.n(24, 200)):
         n = rng.choice([8, 12, 24, 36, 36, 72, rng.randint(8, 120)])
         lead = rng.choice([(), (rng.randint(1, 3),), (rng.randint(1, 2), rng.randint(1, 3))])
         nf = rng.randint(2, 6)
@@ -559,11 +559,72 @@ def eval_spec(ctx, item, impl):
 
 
 def replay(ctx, obj):
-    print("replay files are self-describing: 'input' holds the arguments of the named call (op)")
+    """re-run the recorded call on the implementation under test and re-evaluate the property's statement"""
+    inp = obj.get("input", obj)
+    op = inp.get("op", "")
+    if op.startswith("estimate_directional_distribution"):
+        dirs = inp["direction"]; n = len(dirs)
+        if "a1" in inp:
+            cols = [inp["a1"], inp["b1"], inp["a2"], inp["b2"]]
+            shape = inp.get("shape", [len(cols[0])])
+        else:
+            m = inp["moments"]; cols = [[m[0]], [m[1]], [m[2]], [m[3]]]; shape = [1]
+        variants = [(inp["method"], inp.get("solution_method"))] if "method" in inp else [(a, b) for a, b, _ in VARIANTS]
+        for method, sm in variants:
+            case = {"op": "est", "method": method, "sm": sm, "dirs": fl(dirs), "shape": list(shape),
+                    "a1": fl(cols[0]), "b1": fl(cols[1]), "a2": fl(cols[2]), "b2": fl(cols[3]), "single": True}
+            r = ctx.impl("C05.py", {"cases": [case]})["results"][0]
+            if err_of(r):
+                print("REPLAY %s/%s: raised %s: %s" % (method, sm, r["error"], r["msg"]))
+                ctx.oracle_fail("raised %s" % r["error"], inp)
+                continue
+            out = unfl(r["out"])
+            for e in range(len(cols[0])):
+                D = out[e * n:(e + 1) * n]
+                m = [c[e] for c in cols]
+                bad = None if any(math.isnan(v) for v in m) else validity(D, n)
+                print("REPLAY %s/%s entry %d moments %s: %s" % (method, sm, e, m, bad or "valid distribution (min %g, integral %.12g)" % (min(D), sum(D) * 360.0 / n)))
+                if bad:
+                    ctx.oracle_fail(bad, inp)
+    elif op.startswith("mem2_directional_distribution"):
+        case = {"op": "dist", "l": fl(inp["lambda"]), "d": fl(inp["direction_increment"]), "th": fl(inp["directions_radians"])}
+        r = ctx.impl("C05.py", {"cases": [case]})["results"][0]
+        m = ctx.model(["dist %s %s %s" % (" ".join(case["l"]), C.flist(inp["direction_increment"]), C.flist(inp["directions_radians"]))])[0]
+        print("REPLAY impl:", r if err_of(r) else unfl(r)[:8], "...")
+        print("REPLAY model:", unfl(m[1:])[:8], "...")
+    elif op.startswith("FrequencySpectrum"):
+        print("REPLAY: spectrum-object case; input =", json_short(inp))
+    else:
+        print("replay: the file is self-describing; 'input' holds the arguments of the call named in 'op':", op)
 
 
-READY = False
-LEVEL_TEXT = ""
-LEVEL_NOTE = ""
-TECHNIQUE = "Coq proof + extracted-model correspondence + property oracles on the implementation"
+def json_short(o):
+    import json
+    t = json.dumps(o, default=str)
+    return t if len(t) < 2000 else t[:2000] + "..."
+
+
+READY = True
+LEVEL_TEXT = ("Theorems (Coq, all grid sizes N, all multipliers lambda, all finite moments that pass the stated guards): the MEM closed form "
+              "(Lygre-Krogstad, modelled on (re,im) pairs and proved equal to the complex-number formula) returns, whenever 1-|c1|^2, the "
+              "denominators and the discrete integral are non-zero, values >= 0 with sum_j D_j 2pi/N = 1 -- also for unrealisable moments; "
+              "the MEM2 distribution exp(-(lambda.T - min))/normalisation is strictly positive with unit integral for EVERY lambda and every "
+              "grid with positive increments, so every status of the modelled Newton iteration (converged, max_iter, failed line search), "
+              "the approximate variant and -- as a consequence checked by execution -- scipy's and the least-squares results are valid "
+              "distributions; NaN guess gives the all-zero row; on np.linspace(0,360,N), N>=3, the midpoint increments are 2pi/N and the "
+              "returned rows sum to one with 360/N; e_i*D_ij integrated over direction returns e_i (and the total variance); a batch is the "
+              "map of the per-entry function; non-spectral variables are carried over. The model is tied to /repo by running the extracted "
+              "model and the implementation on the same generated inputs (MEM, MEM2 kernels, all four variants x batch shapes, spectrum "
+              "objects), and the property's own statement (non-negative, unit integral, no exception, batch = single, energy round trip, "
+              "metadata) is evaluated on the implementation for every generated case.")
+LEVEL_NOTE = ("Decided by execution only: 'returns without raising' (numba runtime), validity of the scipy root(lm) and np.linalg.lstsq "
+              "branches (not modelled; only the consequence of mem2_dist_valid is checked on their outputs), xarray/numpy layout handling "
+              "(reshape, broadcasting, Dataset construction), binary64 rounding. Batch = single is bit-exact only for MEM; the fastmath "
+              "kernels of MEM2 round differently depending on slice alignment (<= 2e-15) and the iterative solvers amplify that, so the "
+              "comparison uses 1e-12 (approximate), 1e-7 on robust Newton paths, 2e-3 in the four-moment norm for scipy and is skipped on "
+              "Newton paths decided within rounding / least-squares fallback (counted in evidence). The MEM fallback of "
+              "use_mem_when_failing_to_converge is dead code in /repo (overwritten by the next assignment); the model follows the code.")
+TRUSTED = ["extracted model (R as binary64, libm of OCaml vs numpy/numba)", "harness tolerances documented in ASSUMPTIONS",
+           "scipy.special.ive for generating von-Mises moments (inputs only)"]
+TECHNIQUE = "Coq proof (algebra over lists, all N and all lambda) + extracted-model correspondence + property oracles on the implementation"
 DESIGN_REF = "DESIGN.md section 5 C05"
